@@ -211,6 +211,7 @@ class Program:
         from . import canon as _canon
 
         _canon.METHOD_NAMES = _canon.method_names([t for *_x, t in pending])
+        _canon.METHOD_SIGNATURES = _canon.method_signatures([t for *_x, t in pending])
         _canon.INIT_ONLY_ATTRS = _canon.init_only_attrs([t for *_x, t in pending])
         _canon.PLAIN_CONTAINER_ATTRS = _canon.plain_container_attrs([t for *_x, t in pending], _canon.INIT_ONLY_ATTRS)
         for modname, path, rel, src, tree in pending:
